@@ -259,6 +259,7 @@ static void mapStacks() {
   for (int i = 0; i <= MAXT; ++i) mprotect(STACK_BASE + i * STACK_SIZE, 4096, PROT_NONE);
   g.stacks_mapped = true;
 }
+bool isOwnStackAddr(const void* p) { const char* lo = STACK_BASE + (size_t)g.cur * STACK_SIZE; return (const char*)p >= lo && (const char*)p < lo + STACK_SIZE; }   /* the running task's own stack: thread-private.  Another task's stack is shared memory like any other (a pointer to a local was handed over). */
 bool isStackAddr(const void* p) { return (const char*)p >= STACK_BASE && (const char*)p < STACK_BASE + STACK_SIZE * (MAXT + 1); }
 
 static void drawNext(struct Task& t) {
